@@ -612,6 +612,7 @@ def reload_phase(ctx, rng, w, ops, real, pks):
         n_more = rng.choice([0, 2, 4, 6])
         for _ in range(n_more):
             op, tag = gen_op(rng, w, allow_bad=False)
+            if op['k'] == 'setMany': continue
             if op['k'] != 'create' and not w.alive(w.objs[op['o']]): continue
             if any(isinstance(x, int) and x < len(pks) and pks[x] is None for x in op.get('items', []) + ([op['v']] if op.get('v') is not None else [])): continue
             err = w.apply(op)
